@@ -64,6 +64,7 @@ type config struct {
 	Gas     int
 	Fee, Wd []string // 40 hex digits, no 0x
 	Seed    int
+	Msig    int    // >0: every EIP712 signature leaf holds this many concatenated 65-byte signatures (v1.11, fort only)
 	Flaw    string // none | extrashare | firstshare | aggsig | opsig | enrsig | creatorsig  (fort only)
 }
 
@@ -91,7 +92,7 @@ func parseCfg(s step) config {
 	b, _ := s["comp"].(bool)
 	return config{Src: drv.Str(s["src"]), Art: drv.Str(s["art"]), Ver: drv.Str(s["ver"]), N: drv.Num(s["n"]),
 		T: drv.Num(s["t"]), V: drv.Num(s["v"]), Net: drv.Str(s["net"]), Amounts: ints(s["amounts"]), Comp: b,
-		Gas: drv.Num(s["gas"]), Fee: strs(s["fee"]), Wd: strs(s["wd"]), Seed: drv.Num(s["seed"]), Flaw: drv.Str(s["flaw"])}
+		Gas: drv.Num(s["gas"]), Fee: strs(s["fee"]), Wd: strs(s["wd"]), Seed: drv.Num(s["seed"]), Flaw: drv.Str(s["flaw"]), Msig: drv.Num(s["msig"])}
 }
 
 func verNum(v string) int {
@@ -289,6 +290,28 @@ func (r *run) createForT() (err error) {
 				lock.Validators[i].PartialDepositData = append(lock.Validators[i].PartialDepositData, cluster.DepositData{
 					PubKey: msg.PublicKey[:], WithdrawalCredentials: msg.WithdrawalCredentials, Amount: int(msg.Amount), Signature: sig[:]})
 			}
+		}
+	}
+	// Safe multisig style signatures: k concatenated 65-byte signatures per leaf (the first one is the real EOA
+	// signature); the definition hashes are recomputed with the package's own setter
+	if c.Msig > 1 {
+		more := func(sig []byte) []byte {
+			out := append([]byte{}, sig...)
+			for len(out) < 65*c.Msig {
+				b := make([]byte, 65)
+				r.rng.Read(b)
+				out = append(out, b...)
+			}
+			return out
+		}
+		for i := range lock.Definition.Operators {
+			lock.Definition.Operators[i].ConfigSignature = more(lock.Definition.Operators[i].ConfigSignature)
+			lock.Definition.Operators[i].ENRSignature = more(lock.Definition.Operators[i].ENRSignature)
+		}
+		lock.Definition.Creator.ConfigSignature = more(lock.Definition.Creator.ConfigSignature)
+		lock.Definition, err = lock.Definition.SetDefinitionHashes()
+		if err != nil {
+			return err
 		}
 	}
 	// a flaw built in by the writer; hashes and the remaining signatures are made consistent with it afterwards
@@ -876,6 +899,27 @@ func (r *run) alter(ty, kind string, val any, sib any, to string) (nv any, appli
 			return val, false, false
 		}
 		nb := append([]byte{}, b...)
+		if strings.HasPrefix(kind, "flip_") { // one bit of the byte at a given position
+			pos := -1
+			switch kind {
+			case "flip_first":
+				pos = 0
+			case "flip_mid":
+				pos = len(nb) / 2
+			case "flip_last":
+				pos = len(nb) - 1
+			case "flip_seg1", "flip_seg2", "flip_seg3":
+				k := int(kind[len(kind)-1] - '1')
+				if len(nb) >= 65*(k+1) {
+					pos = 65*k + r.rng.Intn(65)
+				}
+			}
+			if pos < 0 || pos >= len(nb) {
+				return val, false, false
+			}
+			nb[pos] ^= 1 << uint(r.rng.Intn(8))
+			return encodeBytes(ty, nb), true, true
+		}
 		switch kind {
 		case "flip":
 			if len(nb) == 0 {
